@@ -1093,10 +1093,18 @@ func (p *scionPacketProcessor) processEPIC() disposition {
 
 	isPenultimate := p.path.IsPenultimateHop()
 	isLast := p.path.IsLastHop()
+	// A router that crosses over into the last segment at its first hop field also handles the
+	// hop field that follows the current one: if that is the penultimate hop field of the path,
+	// this router is the one that has to validate the PHVF (the packet leaves with the pointer
+	// on the last hop field, so no other router will).
+	nextIsPenultimate := int(p.path.PathMeta.CurrHF)+1 == p.path.NumHops-2
 
 	disp := p.process()
 	if disp != pForward {
 		return disp
+	}
+	if nextIsPenultimate && p.effectiveXover {
+		isPenultimate = true
 	}
 
 	if isPenultimate || isLast {
